@@ -41,8 +41,9 @@ class Edge:
 
 
 class CFG:
-    def __init__(self, fi: FuncInfo):
+    def __init__(self, fi: FuncInfo, model=None):
         self.fi = fi
+        self.model = model
         self.nodes: list[Node] = [Node(ENTRY, "entry"), Node(EXIT, "exit"), Node(RAISE, "raise")]
         self.edges: list[Edge] = []
         self.node_of_stmt: dict[int, int] = {}    # id(ast stmt) -> node id
@@ -181,7 +182,7 @@ class CFG:
     # ------------------------------------------------------------------ facts
     def canon(self) -> Canon:
         if self._canon is None:
-            c = Canon(self.fi, None, CanonOptions())
+            c = Canon(self.fi, self.model, CanonOptions())
             c.function()           # fills the single-definition environment
             self._canon = c
         return self._canon
